@@ -260,4 +260,5 @@ package openapiv3
 //@   modifies *
 //@   opaque annotations.IsFlattenField, openapiv3.checkIfFieldRequired
 //@   at-call CreateSchemaProxy requires required_complete: arg0.Properties == baseProps ==> (forall k int :: 0 <= k && k < len(message.Fields) && !annotations.IsFlattenField(message.Fields[k]) && checkIfFieldRequired(message.Fields[k]) ==> (exists j int :: 0 <= j && j < len(arg0.Required) && arg0.Required[j] == message.Fields[k].Desc.JSONName()))
+//@   at-call CreateSchemaProxy requires promoted_properties_are_optional: arg0.Properties != baseProps && len(arg0.AllOf) == 0 ==> len(arg0.Required) == 0
 //@   loop 1 invariant forall k int :: 0 <= k && k < _i1 && !annotations.IsFlattenField(message.Fields[k]) && checkIfFieldRequired(message.Fields[k]) ==> (exists j int :: 0 <= j && j < len(baseRequired) && baseRequired[j] == message.Fields[k].Desc.JSONName())
